@@ -292,6 +292,20 @@ func (c *childOut) finish() {
 func childMain(mode string) {
 	r := mon.Start("C17", "exploration") // only for Tier/Seed/Rand/Pick; the child never calls Finish
 	out := newChildOut(mode)
+	// deadlock witness: a goroutine parked for minutes on a sync lock with a frame of the name
+	// table on its stack means the table has stopped (a slow run never parks anyone that long
+	// on a lock that is only held for map operations). The stacks are the evidence.
+	go func() {
+		for {
+			time.Sleep(20 * time.Second)
+			if fns, stacks := mon.LibLockWaiters("Manticore/network/netbios/nbtns."); len(fns) > 0 {
+				out.violation("table:deadlock:"+fns[0], fmt.Sprintf("%d goroutines have been parked for minutes on a lock of the name table, the first in %s (workload %s): the table no longer answers", len(fns), fns[0], mode), map[string]any{"mode": mode, "stack": stacks[0], "waiters": fns}, 0)
+				out.res.Counters["deadlock_stopped_the_workload"] = 1
+				out.finish()
+				os.Exit(0)
+			}
+		}
+	}()
 	switch mode {
 	case "seq":
 		childSeq(r, out)
